@@ -8,10 +8,7 @@ from .values import (VInt, VBool, VSeq, VNone, VTuple, VList, VRef, VAny, VConst
                      parse_type, box, unbox, wt, wt_seq, sym_value, is_bytes_fact)
 from .engine import _ids, lit_seq
 
-# record classes (NamedTuples / cstruct snapshots): field name -> type descriptor
-RECORDS = {}
-# object classes: field name -> type descriptor ("file", "int", "bytes", "mlist[any]", "obj:Name"...)
-OBJECTS = {}
+from .values import RECORDS, OBJECTS
 
 
 def register_record(name, fields, module=None):
